@@ -913,4 +913,11 @@ def rules(repo: Repo, tier: str) -> List[RuleResult]:
     return [rule_tables(repo), c12.rule_compare(repo), rule_translate(repo), rule_literal(repo), rule_foldid(repo), rule_foldarms(repo),
             rule_equality(repo), c06.rule_range(repo, "C02.range", "GroundedPrecondition.is_applicable"),
             c06.rule_conform(repo, "C02.conform", only_funcs=(EVAL,), floor=0),
-            rule_passthrough(repo), rule_groundall(repo), rule_keyerror(repo)]
+            rule_passthrough(repo), rule_groundall(repo), rule_keyerror(repo)] + _grounding_rules(repo)
+
+
+def _grounding_rules(repo: Repo) -> List[RuleResult]:
+    """the instantiated precondition is the schema's with arguments substituted POSITION BY POSITION (C20): a numeric condition that reads
+    (dist p1 base) where (dist base p1) was written is evaluated on another fluent"""
+    from . import c20
+    return [c20.rule_positional(repo).as_rule("C02.ground.positional"), c20.rule_constants(repo).as_rule("C02.ground.constants")]
